@@ -105,11 +105,14 @@ type blk struct {
 	byz       bool
 	eip158    bool
 	num       uint64
-	// an existing empty coinbase was touched inside a frame that was rolled back
-	coinbaseTouchReverted bool
+	// existing empty accounts that were touched inside a frame that was rolled back
+	revTouch map[common.Address]bool
 }
 
-const causeTouchedCoinbase = "empty_coinbase_touched_in_reverted_frame"
+const (
+	causeTouchedCoinbase = "empty_coinbase_touched_in_reverted_frame"
+	causeTouchedSender   = "empty_sender_touched_in_reverted_frame"
+)
 
 func (e *env) begin(coinbase common.Address, limitDelta int64) *blk {
 	parent := e.bc.CurrentBlock()
@@ -139,7 +142,7 @@ func (e *env) begin(coinbase common.Address, limitDelta int64) *blk {
 		panic(err)
 	}
 	b := &blk{e: e, parent: parent, header: h, st: st, gp: new(core.GasPool).AddGas(limit), cur: e.model,
-		byz: e.cfg.IsByzantium(num), eip158: e.cfg.IsEIP158(num), num: num.Uint64()}
+		byz: e.cfg.IsByzantium(num), eip158: e.cfg.IsEIP158(num), num: num.Uint64(), revTouch: map[common.Address]bool{}}
 	hf := false
 	if hf4 := e.cfg.GetHF(4); hf4 != nil && hf4.Cmp(num) == 0 {
 		misc.ApplyHardFork4(st)
@@ -279,6 +282,16 @@ func (b *blk) apply(p *plan) bool {
 	b.st.Prepare(tx.Hash(), common.Hash{}, len(b.txs))
 	rc, _, err := core.ApplyTransaction(e.cfg, e.bc, nil, b.gp, b.st, b.header, tx, &b.header.GasUsed, vm.Config{Debug: true, Tracer: tr})
 	e.txCount++
+	if err != nil && b.revTouch[p.S.Addr] {
+		// the live state and the committed state of this sender have diverged
+		// (see causeTouchedSender): the nonce it shows to ApplyTransaction is not
+		// the one the state root commits to
+		c.ViolateInput("valid_tx_rejected", "tx", causeTouchedSender,
+			fmt.Sprintf("block %d (%s) position %d: %s is valid against the committed state but ApplyTransaction returned %q", b.num, e.cfgName, len(b.txs), p.describe(), err),
+			b.witness(p, tx, nil, nil, tr))
+		e.broken = true
+		return false
+	}
 	if err != nil {
 		c.ViolateInput("valid_tx_rejected", p.op(), b.boundary(p),
 			fmt.Sprintf("block %d (%s) position %d: %s satisfies nonce, prepayment, value, intrinsic-gas and block-gas conditions but ApplyTransaction returned %q", b.num, e.cfgName, len(b.txs), p.describe(), err),
@@ -383,15 +396,27 @@ func (b *blk) judge(p *plan, tx *types.Transaction, rc *types.Receipt, tr *trace
 	wit.Receipt = fmt.Sprintf("status=%d gas_used=%d cumulative=%d logs=%d post_state=%x", rc.Status, rc.GasUsed, rc.CumulativeGasUsed, len(rc.Logs), rc.PostState)
 	where := fmt.Sprintf("block %d (%s) position %d, %s", b.num, e.cfgName, len(b.txs), p.describe())
 	bad := func(clause, detail string) { c.ViolateInput(clause, op, cause, where+": "+detail, wit) }
-	// the coinbase existed as an empty account and a frame that touched it with a
-	// zero-value call was rolled back earlier in this block (or in this very
-	// transaction): what is credited to it afterwards is a separate, known shape
-	touchedNow := p.Kind == "touch_empty_coinbase_fail" || (strings.HasPrefix(p.Kind, "touch_coinbase_fail") && pre[C] != nil && pre[C].empty())
-	if touchedNow {
-		b.coinbaseTouchReverted = true
+	// An account that exists empty and received a zero-value transfer inside a
+	// frame that was then rolled back (in this transaction or earlier in this
+	// block): what happens to it afterwards in the block is a separate, known
+	// shape and gets its own cause.
+	for _, a := range tr.revTouched {
+		if x, ok := pre[a]; ok && x.empty() {
+			if !b.revTouch[a] {
+				c.Count("existing_empty_account_touched_in_reverted_frame")
+			}
+			b.revTouch[a] = true
+		}
+	}
+	badSender := func(clause, detail string) {
+		if b.revTouch[S] {
+			c.ViolateInput(clause, "tx", causeTouchedSender, where+": "+detail, wit)
+			return
+		}
+		bad(clause, detail)
 	}
 	badCoinbase := func(clause, detail string, lost *big.Int) {
-		if b.coinbaseTouchReverted && S != C && lost != nil && lost.Sign() > 0 {
+		if b.revTouch[C] && lost != nil && lost.Sign() > 0 {
 			c.ViolateInput(clause, "tx", causeTouchedCoinbase, where+": "+detail, wit)
 			return
 		}
@@ -408,7 +433,7 @@ func (b *blk) judge(p *plan, tx *types.Transaction, rc *types.Receipt, tr *trace
 
 	// --- nonce
 	if got, want := post.get(S).Nonce, pre.get(S).Nonce+1; got != want {
-		bad("sender_nonce_not_incremented_by_one", fmt.Sprintf("sender nonce %d -> %d", pre.get(S).Nonce, got))
+		badSender("sender_nonce_not_incremented_by_one", fmt.Sprintf("sender nonce %d -> %d", pre.get(S).Nonce, got))
 	}
 
 	// --- gas bounds
@@ -555,7 +580,7 @@ func (b *blk) judge(p *plan, tx *types.Transaction, rc *types.Receipt, tr *trace
 			if failed && new(big.Int).Add(d, p.Value).Cmp(exp[S]) == 0 && p.Value.Sign() != 0 {
 				clause = "value_taken_though_execution_failed"
 			}
-			bad(clause, fmt.Sprintf("sender balance changed by %v, expected %v (gasUsed %d x price %v = %v, value %v, status %d)", d, exp[S], g, p.Price, fee, p.Value, rc.Status))
+			badSender(clause, fmt.Sprintf("sender balance changed by %v, expected %v (gasUsed %d x price %v = %v, value %v, status %d)", d, exp[S], g, p.Price, fee, p.Value, rc.Status))
 		}
 		if S != C {
 			if d := delta(C); d.Cmp(exp[C]) != 0 {
@@ -647,10 +672,11 @@ func (b *blk) judge(p *plan, tx *types.Transaction, rc *types.Receipt, tr *trace
 					// nothing but the bare account of the recipient appeared
 					sub = "empty_recipient_account_created"
 				}
-				if ok0 && !ok1 && x0.empty() && b.eip158 {
-					// an existing empty recipient disappeared
-					sub = "empty_recipient_account_deleted"
-				}
+			}
+			if ok0 && !ok1 && x0.empty() && b.eip158 {
+				// an existing empty account (recipient of the transaction or of an
+				// inner transfer) disappeared
+				sub = "existing_empty_account_deleted"
 			}
 			c.ViolateInput(clause, op, sub, where+fmt.Sprintf(": account %s %s -> %s although execution failed", a.Hex(), describeAcct(x0, ok0), describeAcct(x1, ok1)), wit)
 		}
